@@ -15,6 +15,7 @@ from fractions import Fraction
 import numpy as np
 
 import npcatalog as C
+import c07_templates  # noqa: F401  (registers the C07-specific templates)
 import c06_trace as TR
 
 PRIMES = (3.0, 5.0, 7.0)
